@@ -318,7 +318,7 @@ FULL_OPS = FOCUS_OPS + (
 
 INT_POOL = (0, 1, 5, 255, 256, 65535, 65536, 2**31 - 1, 2**31, -1, -(2**31), -(2**31) - 1,
             2**63 - 1, 2**63, -(2**63), 2**100, -(2**100))  # fmt: skip
-STR_POOL = ("", "a", "b", "k", "os", "system", "id", "\u00e9", "\u20ac", "\U0001d11e", "a\nb",
+STR_POOL = ("", "a", "b", "k", "os", "system", "id", "Outer.Inner", "\u00e9", "\u20ac", "\U0001d11e", "a\nb",
             "\\", "'\"", "123", "x" * 300)  # fmt: skip
 BYTES_POOL = (b"", b"x", b"\x00\xff", b"\n", b"12", b"y" * 300)
 FLOAT_POOL = (0.0, -0.0, 1.5, -2.25, 1e300, float("inf"), float("-inf"), 5e-324)
@@ -402,6 +402,7 @@ class State:
         if not self.p.unique_attr_names:
             return True
         m = norm_module(module)
+        name = name.split(".")[0]  # a qualified name binds (imports) its first component
         if self.names.get(name, m) != m:
             self._excl("KF-C03-1 attr-name-collision")
             return False
@@ -478,7 +479,7 @@ class State:
                 self._seg(2)
                 and st[-1].k == "str"
                 and st[-2].k == "str"
-                and _valid_ident(st[-1].val)
+                and _valid_modname(st[-1].val)  # identifier or qualified name A.B
                 and _valid_modname(st[-2].val)
                 and self._name_ok(st[-2].val, st[-1].val)
             )
@@ -596,7 +597,7 @@ class State:
         return xs
 
     def _bind(self, module, name):
-        self.names.setdefault(name, norm_module(module))
+        self.names.setdefault(name.split(".")[0], norm_module(module))
 
     def _call(self, op, parts):
         for v in parts:
